@@ -278,7 +278,7 @@ class ProductState:
                 num_elements = ps.size
                 sqrt = int(jnp.ceil(jnp.sqrt(num_elements)))
                 self.state = ps.reshape((sqrt, sqrt))
-                self.state /= jnp.linalg.norm(self.state)
+                self.state /= jnp.trace(self.state)
             else:
                 self.state = jnp.array([[1]])
 
